@@ -49,9 +49,9 @@ pub fn lazy_small_block_texts(quick: bool) -> Vec<(usize, usize)> {
 
 pub fn grid_texts(ctx: &Ctx) -> Vec<(usize, usize)> {
     if ctx.quick() {
-        vec![(1, 4096), (2, 4096), (3, 3000), (8, 12_000), (9, 12_000), (10, 4000), (11, 16_000), (13, 11_000)]
+        vec![(1, 4096), (2, 4096), (3, 3000), (8, 12_000), (9, 12_000), (10, 4000), (11, 16_000), (13, 10_944)]
     } else {
-        vec![(0, 4096), (1, 4096), (2, 4096), (3, 3000), (4, 2048), (8, 12_000), (9, 12_000), (9, 40_000), (10, 4000), (11, 16_000), (11, 80_000), (13, 11_000), (13, 75_000), (1, 65536), (2, 70000), (8, 140_000), (5, 200_000)]
+        vec![(0, 4096), (1, 4096), (2, 4096), (3, 3000), (4, 2048), (8, 12_000), (9, 12_000), (9, 40_000), (10, 4000), (11, 16_000), (11, 80_000), (13, 10_944), (13, 76_608), (1, 65536), (2, 70000), (8, 140_000), (5, 200_000)]
     }
 }
 
